@@ -53,7 +53,63 @@ def data_ok(p, disk):
     return zckref.H(p.hash_type, disk[p.header_len:p.total_len]) == p.data_digest
 
 
+def rescan_worker(case):
+    """A scan (or a full read) marks chunks valid, the file then changes on disk, and the same context scans again:
+    the second classification must describe the bytes that are on disk NOW."""
+    cdir = case["dir"]
+    keep = False
+    disk = core.unb64(case["disk"])
+    cid = core.h8([case["base"], "rescan", case["first"], case["pokes"], case["second"]])
+    stats = {"disk_states": 1, "rescans": 1}
+    try:
+        p = zckref.parse(disk)
+        after = bytearray(disk)
+        for off, hx in case["pokes"]:
+            b_ = bytes.fromhex(hx)
+            after[off:off + len(b_)] = b_
+        after = bytes(after)
+        exp = expected_flags(p, after)
+        dok = data_ok(p, after)
+        all_good = all(f == 1 for f in exp)
+        L = ["fopen 1 f.zck rw input", "create 1", "init_read 1 1"]
+        L += ["readall 1 0 4096"] if case["first"] == "read" else ["%s 1" % case["first"]]
+        L += ["flags 1"] + ["poke 1 %d x:%s" % (off, hx) for off, hx in case["pokes"]] + ["%s 1" % case["second"], "flags 1"]
+        rd = core.run_zh(case["zh"], cdir, "\n".join(L) + "\n", {"f.zck": disk}, name="rescan")
+        if rd.timed_out and not rd.cpu_exceeded:
+            return core.verdict(cid, "inconclusive", detail="watchdog", case=case)
+        cs = core.crash_signatures(rd)
+        viol = None
+        if cs:
+            viol = (cs[0], "crash in %s: %s" % (rd.open_call, cs))
+        else:
+            fl = [e["valid"] for e in rd.events if e.get("op") == "flags"]
+            ev2 = [e for e in rd.events if e.get("op") == case["second"]]
+            if len(fl) < 2 or not ev2:
+                return core.verdict(cid, "inconclusive", detail="missing events %s" % rd.harness_error, case=case)
+            rc = ev2[-1]["rc"]
+            scan = case["second"] in ("vc", "fv") or p.has_uncomp
+            if scan:
+                want_ok = all_good and dok
+                want_flags = exp if not (all_good and not dok) else [-1] * len(exp)
+                if (rc == 1) != want_ok:
+                    viol = ("c09:rescan:%s-after-%s:verdict:%s" % (case["second"], case["first"], "success-on-damage" if rc == 1 else "failure-on-intact"),
+                            "second scan returned %d; bytes now on disk: chunks %s data_ok=%s" % (rc, exp, dok))
+                elif fl[-1] != want_flags and rc != 0:
+                    viol = ("c09:rescan:%s-after-%s:flags" % (case["second"], case["first"]), "second scan flags %s, expected %s from the bytes now on disk" % (fl[-1], want_flags))
+            else:
+                if (rc == 1) != dok:
+                    viol = ("c09:rescan:vd-after-%s:verdict" % case["first"], "vd returned %d, data_ok=%s" % (rc, dok))
+        if viol:
+            keep = True
+            return core.verdict(cid, "violated", [viol[0]], stats, detail=viol[1] + " base=%s pokes=%s" % (case["base"], case["pokes"]), cdir=cdir, case=case)
+        return core.verdict(cid, "held", stats=stats, nontrivial=True, sample={"base": case["base"], "first": case["first"], "damage": case["pokes"], "second": case["second"], "expected_flags": exp})
+    finally:
+        core.cleanup_case(cdir, keep)
+
+
 def worker(case):
+    if case.get("rescan"):
+        return rescan_worker(case)
     cdir = case["dir"]
     keep = False
     disk = core.unb64(case["disk"])
@@ -303,4 +359,15 @@ class C09(core.Check):
                 if dl == 0 and name in ("detached-dict-corrupt", "detached-dict-absent"):
                     continue
                 out.append({"base": b["name"], "state": {"chunks": [name]}, "disk": core.b64(dd), "words": [["fv"], ["vc"], ["fv", "fv"]], "zh": ctx["zh"]})
+            # marked valid first (scan or full read), damaged afterwards, scanned again on the same context
+            for _ in range(3 if self.quick else 12):
+                cs_ = [c for c in p.chunks if c["comp_len"]]
+                if not cs_:
+                    break
+                pk = []
+                for c in r.sample(cs_, r.randrange(1, min(3, len(cs_)) + 1)):
+                    off = p.header_len + c["start"] + r.randrange(c["comp_len"])
+                    pk.append([off, bytes([full[off] ^ (1 << r.randrange(8))]).hex()])
+                out.append({"rescan": True, "base": b["name"], "disk": core.b64(full), "first": r.choice(["fv", "vc", "vd", "read"]), "pokes": pk,
+                            "second": r.choice(["fv", "vc", "vd"]), "zh": ctx["zh"]})
         return out
